@@ -635,6 +635,13 @@ int main()
       if(i >= x.size()) bad = true;
       else { x.resize(hxNum(l, 2), x[i]); show = 5; }
     }
+    else if(hxIs(l, "aappendsub", 3))
+    {
+      // append(const T* values, usize size) with `values` pointing INTO the array
+      size_t i = hxNum(l, 2), n = hxNum(l, 3);
+      if(i + n > x.size()) bad = true;
+      else { x.append((const int*)x + i, n); show = 5; }
+    }
     else if(hxIs(l, "aassignself", 1)) { A& r = (x = x); if(&r != &x) printf("assign-returns-other "); show = 5; }
     else if(hxIs(l, "aeq", 2))
     {
